@@ -389,7 +389,9 @@ fn op_km(em: &mut Em, c0: &Rows, batches: &[Rows], tol: f64, seed: u64) {
                 }
             }
             let shift = sqd(&cs.concat(), &got_cs.concat()).sqrt();
-            if (shift - tol).abs() > 1e-12 * (1.0 + tol) {
+            // exact equality is a real boundary on lattice inputs and is judged; only a shift within rounding
+            // distance of the tolerance (but not equal to it) is left undecided
+            if shift == tol || (shift - tol).abs() > 1e-12 * (1.0 + tol) {
                 ctx.require(conv == (shift < tol), "converged_truthful", &class, || format!("batch {}: centroid shift {} tolerance {} reported converged={}", bi, shift, tol, conv));
             }
             parts.push(format!("cs={}/cnt={}/conv={}", list2(got_cs.iter().map(|x| x.iter()), |x| hex64c(*x)), list(got_cnt.iter(), |x| hex64c(*x)), conv as u8));
